@@ -20,6 +20,7 @@ theorem fresh_alloc (s : Store) (op : SOp) (j : Nat) (h : (s.step op).2 = some j
     exact ⟨by simp [Store.content], fun i hi => by simp [Store.content, List.getElem?_append_left hi]⟩
   | add i it => simp [Store.step] at h
   | remove i k => simp [Store.step] at h
+  | edit i k => simp only [Store.step] at h; split at h <;> simp at h
 
 /-- a block constructed without items starts empty, no matter what was done to earlier instances -/
 theorem new_without_items_is_empty (s : Store) :
@@ -51,6 +52,7 @@ theorem instance_independent (s : Store) (ops : List SOp) (j : Nat) (hj : j < s.
       | decode items => simp [Store.step]
       | add i it => simp [Store.step]
       | remove i k => simp [Store.step]
+      | edit i k => simp only [Store.step]; split <;> simp
     rw [ih (s.step op).1 (by omega) (fun o ho => h o (by simp [ho]))]
     cases op with
     | construct items => cases items <;> simp [Store.step, Store.content, List.getElem?_append_left hj]
@@ -61,6 +63,7 @@ theorem instance_independent (s : Store) (ops : List SOp) (j : Nat) (hj : j < s.
     | remove i k =>
       have : i ≠ j := fun e => (h (.remove i k) (by simp) 0 k).2 (by rw [e])
       exact (separation s i j this 0 k).2
+    | edit i k => simp only [Store.step]; split <;> rfl
 
 /-- decoding the same bytes twice gives two instances that can be edited independently -/
 theorem decode_twice_independent (s : Store) (items : List Nat) (it : Nat) :
@@ -75,5 +78,178 @@ theorem decode_twice_independent (s : Store) (items : List Nat) (it : Nat) :
   · rw [List.getElem?_modify]; simp
 
 example : ((Store.empty.run [.construct none, .add 0 7, .construct none]).content 1) = some [] := by decide
+
+/-! ### editing an item in place -/
+
+/-- an in-place edit never changes which items an instance holds -/
+theorem edit_keeps_content (s : Store) (i k j : Nat) : (s.step (.edit i k)).1.content j = s.content j := by
+  simp only [Store.step]; split <;> rfl
+
+/-- an in-place edit changes the encoding of exactly the instances that hold the edited object -/
+theorem edit_seen_only_by_holders (s : Store) (i k j : Nat) (id : Nat) (c : List Nat)
+    (hid : s.itemAt i k = some id) (hc : s.content j = some c) (hfree : id ∉ c) :
+    (s.step (.edit i k)).1.encoding j = s.encoding j := by
+  simp only [Store.step, hid, Store.encoding]
+  simp only [Store.content] at hc
+  rw [hc]
+  simp only [Option.map_some, Option.some.injEq]
+  apply List.map_congr_left
+  intro a ha
+  have : a ≠ id := fun e => hfree (e ▸ ha)
+  simp [Store.ver, this.symm]
+
+/-- no object is held by two instances -/
+def Sep (s : Store) : Prop :=
+  ∀ i j ci cj, i ≠ j → s.content i = some ci → s.content j = some cj → ∀ a ∈ ci, a ∉ cj
+
+/-- an operation brings only objects no instance holds yet (what separate constructor / decode calls
+    and freshly built items are) -/
+def FreshOp (s : Store) : SOp → Prop
+  | .construct (some items) => ∀ a ∈ items, ∀ c ∈ s.cells, a ∉ c
+  | .decode items => ∀ a ∈ items, ∀ c ∈ s.cells, a ∉ c
+  | .add _ it => ∀ c ∈ s.cells, it ∉ c
+  | _ => True
+
+theorem mem_cells_of_content {s : Store} {i : Nat} {c : List Nat} (h : s.content i = some c) : c ∈ s.cells := by
+  simp only [Store.content] at h
+  exact List.mem_of_getElem? h
+
+theorem sep_append (s : Store) (items : List Nat) (hs : Sep s) (hf : ∀ a ∈ items, ∀ c ∈ s.cells, a ∉ c) :
+    Sep { s with cells := s.cells ++ [items] } := by
+  intro i j ci cj hij hi hj a ha
+  simp only [Store.content] at hi hj
+  rcases Nat.lt_or_ge i s.cells.length with hil | hil
+  · rw [List.getElem?_append_left hil] at hi
+    rcases Nat.lt_or_ge j s.cells.length with hjl | hjl
+    · rw [List.getElem?_append_left hjl] at hj
+      exact hs i j ci cj hij hi hj a ha
+    · rw [List.getElem?_append_right hjl] at hj
+      have : cj = items := by
+        cases hk : j - s.cells.length with
+        | zero => simp [hk] at hj; exact hj.symm
+        | succ n => simp [hk] at hj
+      subst this
+      intro hmem
+      exact hf a hmem ci (List.mem_of_getElem? hi) ha
+  · rw [List.getElem?_append_right hil] at hi
+    have : ci = items := by
+      cases hk : i - s.cells.length with
+      | zero => simp [hk] at hi; exact hi.symm
+      | succ n => simp [hk] at hi
+    subst this
+    rcases Nat.lt_or_ge j s.cells.length with hjl | hjl
+    · rw [List.getElem?_append_left hjl] at hj
+      exact hf a ha cj (List.mem_of_getElem? hj)
+    · rw [List.getElem?_append_right hjl] at hj
+      exfalso
+      have hi0 : i - s.cells.length = 0 := by
+        cases hk : i - s.cells.length with
+        | zero => rfl
+        | succ n => simp [hk] at hi
+      have hj0 : j - s.cells.length = 0 := by
+        cases hk : j - s.cells.length with
+        | zero => rfl
+        | succ n => simp [hk] at hj
+      omega
+
+theorem modify_get {cells : List (List Nat)} {f : List Nat → List Nat} {i n : Nat} {c : List Nat}
+    (h : (cells.modify i f)[n]? = some c) : ∃ c0, cells[n]? = some c0 ∧ c = if i = n then f c0 else c0 := by
+  rw [List.getElem?_modify] at h
+  cases hc : cells[n]? with
+  | none => simp [hc] at h
+  | some c0 => simp [hc] at h; exact ⟨c0, rfl, h.symm⟩
+
+/-- separation is an invariant of every operation that brings fresh objects -/
+theorem sep_step (s : Store) (op : SOp) (hs : Sep s) (hf : FreshOp s op) : Sep (s.step op).1 := by
+  cases op with
+  | construct items =>
+    cases items with
+    | none => exact sep_append s [] hs (by simp)
+    | some items => exact sep_append s items hs hf
+  | decode items => exact sep_append s items hs hf
+  | add i it =>
+    intro a b ca cb hab ha hb x hx
+    simp only [Store.step, Store.content] at ha hb
+    obtain ⟨ca0, hca, rfl⟩ := modify_get ha
+    obtain ⟨cb0, hcb, rfl⟩ := modify_get hb
+    have fa : it ∉ ca0 := hf ca0 (List.mem_of_getElem? hca)
+    have fb : it ∉ cb0 := hf cb0 (List.mem_of_getElem? hcb)
+    have base := hs a b ca0 cb0 hab hca hcb
+    by_cases hia : i = a
+    · have hib : ¬ i = b := fun e => hab (hia ▸ e)
+      simp only [hia, if_true, List.mem_append, List.mem_singleton] at hx
+      simp only [hib, if_false]
+      rcases hx with hx | rfl
+      · exact base x hx
+      · exact fb
+    · simp only [hia, if_false] at hx
+      by_cases hib : i = b
+      · simp only [hib, if_true, List.mem_append, List.mem_singleton, not_or]
+        exact ⟨base x hx, fun e => fa (e ▸ hx)⟩
+      · simp only [hib, if_false]; exact base x hx
+  | remove i k =>
+    intro a b ca cb hab ha hb x hx
+    simp only [Store.step, Store.content] at ha hb
+    obtain ⟨ca0, hca, rfl⟩ := modify_get ha
+    obtain ⟨cb0, hcb, rfl⟩ := modify_get hb
+    have base := hs a b ca0 cb0 hab hca hcb
+    have hxa : x ∈ ca0 := by
+      by_cases hia : i = a
+      · simp only [hia, if_true] at hx; exact List.mem_of_mem_eraseIdx hx
+      · simpa only [hia, if_false] using hx
+    intro hxb
+    have hxb0 : x ∈ cb0 := by
+      by_cases hib : i = b
+      · simp only [hib, if_true] at hxb; exact List.mem_of_mem_eraseIdx hxb
+      · simpa only [hib, if_false] using hxb
+    exact base x hxa hxb0
+  | edit i k =>
+    simp only [Store.step]
+    split <;> exact hs
+
+/-- the operations of a history all bring fresh objects -/
+def FreshOps : Store → List SOp → Prop
+  | _, [] => True
+  | s, op :: ops => FreshOp s op ∧ FreshOps (s.step op).1 ops
+
+theorem sep_run (s : Store) (ops : List SOp) (hs : Sep s) (hf : FreshOps s ops) : Sep (s.run ops) := by
+  induction ops generalizing s with
+  | nil => exact hs
+  | cons op ops ih => exact ih _ (sep_step s op hs hf.1) hf.2
+
+/-- EDIT INDEPENDENCE: after any interleaving of separate constructions, decodes, additions of new
+    items, removals and in-place edits, editing an item of one instance changes neither what another
+    instance contains nor what it encodes -/
+theorem edit_independent (ops : List SOp) (hf : FreshOps Store.empty ops) (i k j : Nat) (h : i ≠ j) :
+    let s := Store.empty.run ops
+    (s.step (.edit i k)).1.content j = s.content j ∧ (s.step (.edit i k)).1.encoding j = s.encoding j := by
+  intro s
+  refine ⟨edit_keeps_content s i k j, ?_⟩
+  have hsep : Sep s := sep_run _ ops (by intro i j ci cj _ hi; simp [Store.content, Store.empty] at hi) hf
+  cases hid : s.itemAt i k with
+  | none => simp [Store.step, hid]
+  | some id =>
+    cases hc : s.content j with
+    | none => simp [Store.step, hid, Store.encoding, Store.content] at hc ⊢; simp [hc]
+    | some c =>
+      apply edit_seen_only_by_holders s i k j id c hid hc
+      simp only [Store.itemAt] at hid
+      cases hci : s.cells[i]? with
+      | none => simp [hci] at hid
+      | some ci =>
+        simp [hci] at hid
+        exact hsep i j ci c h hci hc id (List.mem_of_getElem? hid)
+
+/-- two decodes of the same bytes (two fresh sets of objects), one edited in place: the other one
+    still encodes the original content, the edited one does not -/
+example :
+    let s := Store.empty.run [.decode [10, 11], .decode [20, 21], .edit 0 1]
+    s.encoding 1 = some [(20, 0), (21, 0)] ∧ s.encoding 0 = some [(10, 0), (11, 1)] := by decide
+example : FreshOps Store.empty [.decode [10, 11], .decode [20, 21], .edit 0 1, .add 1 30] := by
+  simp [FreshOps, FreshOp, Store.step, Store.empty, Store.itemAt]
+/-- and what the theorem rules out — the same objects handed out twice — is visible in the model -/
+example :
+    let s := Store.empty.run [.decode [10, 11], .decode [10, 11], .edit 0 1]
+    s.encoding 1 = some [(10, 0), (11, 1)] := by decide
 
 end Tdf.C20
